@@ -773,8 +773,12 @@ class DocutilsRenderer(RendererProtocol):
         # TODO this is purely to mimic docutils, but maybe we don't need it?
         # (since we have the slugify logic below)
         name = nodes.fully_normalize_name(implicit_text)
-        node["names"].append(name)
+        # note: only the new name is registered as an implicit target;
+        # docutils would otherwise register the names the node already has
+        # (e.g. from a `{#id}` attribute) a second time, as duplicates of themselves
+        explicit_names, node["names"] = node["names"], [name]
         self.document.note_implicit_target(node, node)
+        node["names"] = explicit_names + node["names"]
 
         if level > (self.md_config.heading_anchors or 0):
             # note heading_anchors can also be None
